@@ -115,13 +115,15 @@ func judge(cs Case, rep Reply) ev.Outcome {
 	col := ev.Get(prop)
 	if rep.Skip != "" {
 		reason := rep.Skip
+		col.Note("skipped session (%s): %s", short(reason, 300), short(sessionKey(cs.S), 700))
 		if i := strings.Index(reason, ":"); i > 0 {
-			col.Note("skipped session: %s", short(reason, 300))
 			reason = reason[:i]
 		}
 		return ev.Outcome{Skip: reason}
 	}
 	if rep.TimedOut {
+		col.Note("session time budget exhausted: %s offset %d mask %s (kind %s) of %s", dirName[cs.C.Dir&1],
+			cs.C.Off, cs.C.Mask, rep.Kind, short(sessionKey(cs.S), 400))
 		return ev.Outcome{Skip: "session time budget exhausted (inconclusive)"}
 	}
 	if !rep.GDone {
@@ -164,6 +166,11 @@ func judge(cs Case, rep Reply) ev.Outcome {
 		return out
 	}
 	classes = append(classes, "outcome="+outcome, "outcome="+outcome+"/"+cs.S.Mode+"/"+dir)
+	col.Count("worker-ms/"+outcome, int(rep.ElapsedMs))
+	if rep.ElapsedMs > 5000 {
+		col.Note("slow case (%d ms, outcome %s): %s offset %d mask %s (kind %s) of %s", rep.ElapsedMs, outcome,
+			dir, cs.C.Off, cs.C.Mask, rep.Kind, short(sessionKey(cs.S), 400))
+	}
 	if rep.EPanic != "" {
 		classes = append(classes, "evaluator-crash")
 		col.Note("evaluator panic site (not part of this property): %s [%s/%s]",
